@@ -11,16 +11,19 @@ CHECKS = {
         "Hypothesis-generated databases and planted genotypes, simulated error-free reads, end-to-end genotype() against the planted truth",
         "End-to-end search: a generated gene database (either strand, pseudogene, alignment gaps, SNP/MNP/insertion/deletion alleles, "
         "deletion and fusion structures) and a planted admissible genotype are turned into an error-free BAM and genotyped through the "
-        "public genotype(); the planted major multiset must be among the best solutions and every best solution must carry exactly the "
+        "public genotype() - reads carry the variants of the database's RefSeq-level description, converted to genome coordinates by "
+        "the harness' own code, and 1 case in 16 uses a shipped small gene on its real coordinates; the planted major multiset must be among the best solutions and every best solution must carry exactly the "
         "planted variants. The property's own condition (planted structure optimal for the depths) is verified per case with an independent "
-        "structure enumerator. A recorded finding (KF1) is attributed by counter-factual re-run with the true reference sequence.",
-        "Perfect-aligner simulator with exactly uniform depth; CBC solver; databases of 300-2000 bp; shipped genes are not simulated in the quick tier.",
+        "structure enumerator. Two recorded findings are attributed precisely: KF1 by counter-factual re-run with the true reference "
+        "sequence, KF2 by a direct call of the vendored indelpost library compared with the CIGAR truth.",
+        "Perfect-aligner simulator with exactly uniform depth; CBC solver; generated databases of 300-2000 bp plus 7 (quick) / 12 (thorough) shipped genes.",
         "DESIGN.md 5/C01",
     ),
     "C19": (
         "Hypothesis-generated fault-shaped alignment files (holes in gene / pseudogene / neutral region, depth below minimum) over generated databases; must-raise / must-not-report oracle",
         "For each generated database a BAM is simulated with a drawn hole mode and genotyped through genotype() on four routes (profile BAM, "
-        "profile file, user-supplied structure with and without a profile), five output formats and the single/multi-gene form. Modes without "
+        "profile file, user-supplied structure with and without a profile), five output formats and the single/multi-gene form. Hole modes "
+        "include reads that end exactly at / start right after the locus and reads only between gene and pseudogene. Modes without "
         "data must raise AldyException, report nothing and leave exactly `sample<TAB>gene<TAB>` in simple output; pseudogene-only reads must be "
         "called deletion/deletion; the control must be called *1/*1 (so the guards are not trivially always on).",
         "Simulated reads only; mode 4 judged only with pseudogene + deletion allele + estimated structure; mode 5 only on routes using a neutral region.",
@@ -77,7 +80,8 @@ CHECKS = {
         "fragment names, reads outside/straddling the locus) plus low-depth simulator reads carrying catalogue SNP/MNP/indels are written as BAM "
         "and as permuted SAM; per position of every gene/pseudogene region the depth, reference/substitution/MNP counts and the (mapq, binned "
         "quality) multisets must equal the independent interpreter's (depth also htslib's), ineligible reads must contribute nothing, read "
-        "order and CIGAR re-encoding (split M runs, =/X spelling) must not matter, and phase records must name an allele a read of the fragment shows.",
+        "order and CIGAR re-encoding (split M runs, =/X spelling) must not matter, and phase records must name an allele a read of the fragment "
+        "shows. The depth / count / quality / phase clauses also run on the three shipped BAMs (NA10860 hg19 + hg38, PacBio) with indelpost on and off.",
         "pysam/htslib trusted as second opinion; long-read path and CRAM not generated; deleted-base qualities not judged.",
         "DESIGN.md 5/C06",
     ),
@@ -85,8 +89,10 @@ CHECKS = {
         "metamorphic relations over Hypothesis-generated simulated samples (k-fold duplication, gene-only scaling, self-profile, profile route)",
         "Per generated database and planted sample: Sample() is built for S, k.S (every read k times), gene-only scaled S, for S with its own "
         "profile and for the BAM- and file-profile routes; region_coverage must be invariant / linear / exactly 2.0 / identical, estimate_cn "
-        "must give the same structures and scores for S and k.S, and a sample without neutral-region reads must be rejected.",
-        "Simulated error-free reads; tolerance 1e-9 relative; the shipped NA10860 ratio check is not in the quick tier.",
+        "must give the same structures and scores for S and k.S, and a sample without neutral-region reads must be rejected. Reads with "
+        "D/I/S/=,X operations are mixed into neutral window and locus, the same profile BAM is loaded with a second neutral window in between, "
+        "and the shipped NA10860 BAMs are profiled and normalised against themselves (exact expectation from the independent pileup).",
+        "Simulated error-free reads plus NA10860; tolerance 1e-9 relative.",
         "DESIGN.md 5/C07",
     ),
     "C08": (
@@ -154,7 +160,8 @@ CHECKS = {
         "stateful testing: Hypothesis RuleBasedStateMachine over operation histories with an invariant after every step; subprocess hash-seed sweep; subset/order metamorphic relation for the minor stage",
         "A rule-based state machine draws a fixture (two generated genes in one BAM, a gene without reads, a profile BAM) and up to 6 operations "
         "(single / multi-gene genotype() runs incl. a failing gene, stage calls on held objects, every public accessor of Gene, solution "
-        "objects and Coverage, both writers, query printing); after each step: equal result for a repeated operation, multi-gene = "
+        "objects and Coverage, both writers, query printing, runs with a named shipped profile such as exome); after each step: equal to the "
+        "fresh reference run computed before the history, equal result for a repeated operation, multi-gene = "
         "single-gene results, failing gene absent, deep structural equality of the held Gene with a fresh load and of the coverage tables "
         "with their snapshot. The same fixture is genotyped in fresh processes with PYTHONHASHSEED 0-7 (results and output files identical) "
         "and candidate major solutions are refined alone, in every subset and order. Failing histories are minimised by dropping operations "
@@ -177,14 +184,16 @@ CHECKS = {
         "One or two catalogued alleles of a generated database are written as VCF records (SNP, deletion, insertion, MNP as one record or as "
         "adjacent records; phased/unphased; REF-mismatch spelling; multi-sample files, sample index 0-3) plus foreign-shaped records and "
         "non-diploid/missing genotypes; the evidence table of Sample() must show c x u support per variant and (2-c) x u reference support "
-        "(u measured on an anchor het SNP), nothing else, no exception; genotype() on the file must report the planted major pair.",
+        "(u measured on an anchor het SNP), nothing else, no exception; genotype() on the file must report the planted major pair. "
+        "1 case in 12 uses a shipped gene on its real coordinates.",
         "bgzip/tabix through pysam; insertion reference support may stay at two copies or be reduced (both accepted).",
         "DESIGN.md 5/C16",
     ),
     "C17": (
         "round trip over Hypothesis-generated simulated samples: `aldy genotype --debug` through main(), then the archive genotyped again",
         "The CLI is run in-process with --debug on a simulated BAM (one or two genes, indels, extra copies, gap 0-0.3, 1-3 minor solutions, "
-        ".aldy/.vcf/.simple output); the produced tar.gz is genotyped with the same parameters; output files must be byte-identical and the "
+        ".aldy/.vcf/.simple output, reads with deletions / mismatches over the pseudogene, neutral windows with uncovered positions) and on the "
+        "shipped NA10860 BAM; the produced tar.gz is genotyped with the same parameters; output files must be byte-identical and the "
         "API results (structures, major/minor solutions, added/missing variants, scores, diplotypes) equal for every gene.",
         "Needs the `tar` binary (aldy shells out to it); cases whose solver enumeration exceeds 60 s are counted as inconclusive (label case-timeout).",
         "DESIGN.md 5/C17",
